@@ -155,6 +155,39 @@ func corr(args []string) {
 			emit(c)
 		}
 	}
+	// JSON documents: nulls in place of pointers and array elements
+	jn := *n / 2
+	for _, kind := range seedKinds {
+		for i := 0; i < jn; i++ {
+			c := jsonCase{Seed: uint64(1 + r.Intn(60)), Kind: kind}
+			ne := r.Intn(4)
+			for k := 0; k < ne; k++ {
+				c.Edits = append(c.Edits, randomJSONEdit(r))
+			}
+			doc, err := c.document()
+			if err != nil {
+				continue
+			}
+			shape, err := decodedShape(doc)
+			if err != nil {
+				continue
+			}
+			v, result := runJSON(doc)
+			id++
+			cases.Printf("%d %s FromJSON %s # %s\n", id, v.res, shape, result)
+			impl.Printf("%d %s\n", id, v.res)
+			b, _ := json.Marshal(struct {
+				ID int `json:"id"`
+				jsonCase
+				Ops   []string `json:"ops"`
+				Impl  string   `json:"impl"`
+				Frame string   `json:"frame,omitempty"`
+			}{id, c, []string{"FromJSON"}, v.res, v.frame})
+			meta.Printf("%s\n", b)
+			dist["json:"+v.res]++
+			dist[fmt.Sprintf("jsonedits:%d", len(c.Edits))]++
+		}
+	}
 	cases.Close()
 	impl.Close()
 	meta.Close()
@@ -171,6 +204,38 @@ func replay(args []string) {
 	if err != nil {
 		fmt.Fprintln(os.Stderr, err)
 		os.Exit(2)
+	}
+	var probe struct {
+		Ops   []string   `json:"ops"`
+		Edits []jsonEdit `json:"edits"`
+		Input *struct {
+			Ops []string `json:"ops"`
+		} `json:"input"`
+	}
+	_ = json.Unmarshal(b, &probe)
+	if (len(probe.Ops) == 1 && probe.Ops[0] == "FromJSON") || (probe.Input != nil && len(probe.Input.Ops) == 1 && probe.Input.Ops[0] == "FromJSON") {
+		var jc jsonCase
+		if probe.Input != nil {
+			var w struct {
+				Input jsonCase `json:"input"`
+			}
+			_ = json.Unmarshal(b, &w)
+			jc = w.Input
+		} else {
+			_ = json.Unmarshal(b, &jc)
+		}
+		doc, err := jc.document()
+		if err != nil {
+			fmt.Fprintln(os.Stderr, err)
+			os.Exit(2)
+		}
+		shape, _ := decodedShape(doc)
+		v, result := runJSON(doc)
+		fmt.Printf("case   : seed=%d kind=%s edits=%v\ndecoded: %s\nverdict: %s %s %s\nresult : %s\n", jc.Seed, jc.Kind, jc.Edits, shape, v.res, v.frame, v.what, result)
+		if v.res == "PANIC" {
+			os.Exit(1)
+		}
+		return
 	}
 	var c ShapeCase
 	if err := json.Unmarshal(b, &c); err != nil {
